@@ -173,6 +173,25 @@ static void case_scan(ByteSource& in, CaseInfo& ci) {
     else { int r = scan("123 456 789", "%*Zd %Zd %d", a.z, &v); REQUIRE(r == 2 && int_from_mpz(a) == Int(456) && v == 789, "gmp_sscanf with %%*Zd: returned %d", r); ci.label("scan:suppression"); }
   }
 }
+
+// ---- exhaustive sweep: the full cross product flags x width x precision x conversion x 12 values for %Z ------------------------
+static const long SWV[12] = {0, 1, -1, 7, -7, 123, -123, 65535, LONG_MAX, LONG_MIN, 1000000007L, -99999L};
+static uint64_t sweep_count() { return 32ull * 6 * 7 * 5 * 12; }
+static void sweep_item(uint64_t i, CaseInfo& ci) {
+  unsigned vi = i % 12; i /= 12; unsigned cv = i % 5; i /= 5; unsigned pi = i % 7; i /= 7; unsigned wi = i % 6; i /= 6; unsigned fl = (unsigned)i;
+  Spec s; s.minus = fl & 1; s.plus = fl & 2; s.space = fl & 4; s.hash = fl & 8; s.zero = fl & 16; s.conv = "dioxX"[cv];
+  static const int ws[] = {0, 1, 5, 20}; if (wi == 0) s.wmode = 0; else if (wi <= 3) { s.wmode = 1; s.width = ws[wi]; } else { s.wmode = 2; s.width = wi == 4 ? 9 : -9; }
+  static const int ps[] = {0, 0, 3, 25}; if (pi == 0) s.pmode = 0; else if (pi <= 3) { s.pmode = 1; s.prec = ps[pi]; } else if (pi == 4) { s.pmode = 2; s.prec = 4; } else if (pi == 5) { s.pmode = 2; s.prec = -2; } else s.pmode = 3;
+  long lv = SWV[vi]; Int V((long long)lv); std::string spec = s.str("Z"); ci.d("\"%s\" of %ld (w=%d p=%d)", spec.c_str(), lv, s.width, s.prec);
+  std::string mid = layout_int(s, V.neg, digits_of(V, s.conv));
+  bool c_comparable = s.pmode != 3 && !(s.hash && s.has_prec() && s.eff_prec() == 0 && lv == 0) && ((s.conv == 'd' || s.conv == 'i') || (lv >= 0 && !s.plus && !s.space));
+  if (c_comparable) { std::string lf = s.str("l"), lc; int w = s.width, p = s.prec; if (s.wmode == 2 && s.pmode == 2) lc = libc_fmt(lf.c_str(), w, p, lv); else if (s.wmode == 2) lc = libc_fmt(lf.c_str(), w, lv); else if (s.pmode == 2) lc = libc_fmt(lf.c_str(), p, lv); else lc = libc_fmt(lf.c_str(), lv); if (lc != mid) fail("HARNESS: layout model \"%s\" disagrees with libc \"%s\" for \"%s\" of %ld", mid.c_str(), lc.c_str(), lf.c_str(), lv); }
+  else if (s.pmode == 3) { Spec t = s; t.pmode = 0; mid = layout_int(t, V.neg, digits_of(V, s.conv)); }
+  else if (s.hash && s.has_prec() && s.eff_prec() == 0 && lv == 0) return;
+  Z z; mpz_set_si(z, lv); char buf[128]; int w = s.width, p = s.prec, n;
+  if (s.wmode == 2 && s.pmode == 2) n = gmp_snprintf(buf, sizeof buf, spec.c_str(), w, p, z.z); else if (s.wmode == 2) n = gmp_snprintf(buf, sizeof buf, spec.c_str(), w, z.z); else if (s.pmode == 2) n = gmp_snprintf(buf, sizeof buf, spec.c_str(), p, z.z); else n = gmp_snprintf(buf, sizeof buf, spec.c_str(), z.z);
+  REQUIRE(n == (int)mid.size() && mid == buf, "gmp_snprintf \"%s\" of %ld: got \"%s\" (returned %d), expected \"%s\"", spec.c_str(), lv, buf, n, mid.c_str());
+}
 // deterministic regression cases for the repaired flag handling (compared with libc on the equal long value)
 static void fixed_case(unsigned k, CaseInfo& ci) {
   struct T { const char* g; const char* c; long v; int star; } t[] = {{"%+ Zd", "%+ ld", 5, 0}, {"%-05Zd", "%-05ld", 5, 0}, {"%08.3Zd", "%08.3ld", 5, 0}, {"%.*Zd", "%.*ld", 0, -1}, {"%#.5Zo", "%#.5lo", 8, 0}, {"%0*Zd", "%0*ld", 7, -6}};
@@ -184,5 +203,6 @@ static void check(ByteSource& in, CaseInfo& ci) { switch (in.pick({10, 5, 4, 4})
 namespace eng {
 PropDef g_prop = {"C18",
   "Cases: one call of a member of the gmp_printf family (sprintf, snprintf with size 0..len+1 into a buffer of exactly that many bytes, asprintf, fprintf, and the four va_list forms) on a format made of flags subset of {-,+,space,#,0} x width {none,1,5,20,* positive,* negative} x precision {none,.0,.3,.25,.* (also negative),'.' alone} x conversion d,i,o,x,X for %Z (values 0,+-1,..,LONG_MIN/MAX, random longs, multi-limb), %Q, %N (negative size), %M (d,i,o,u,x,X), and e,f,g,E,G for %F, alone or embedded between standard conversions (%d %s %c %% %ld %5.2f %n). Oracle: libc snprintf with %l and the equal long value (byte-identical) wherever C gives the conversion a meaning; a layout model of C's padding/sign/prefix/precision rules, validated against libc in the same run, for signed o/x/X and values that do not fit a long; libc %l for %M; libc double output for %F on dyadic values whose expansion is exact at the requested precision; return value = full length, truncation = first size-1 bytes + NUL, asprintf block = length+1 (recording allocator), %n. Input: gmp_sscanf / gmp_fscanf read back what the output functions printed (%Zd %Zi %Zx %Zo %Qd %Qi %Ff %Fe %Fg %Fa, %n, %*Zd), C-style count, EOF and matching failure. Not asserted: '#' with precision 0 on zero, '0' flag with %Q. Non-trivial: every case. Distinct = hash of all decoded choices.",
-  check, setup, {"Z:compared_with_libc", "Z:big_value_model", "Z:signed_oxX_model", "Z:empty_precision", "%Q", "%N", "%M", "%F", "gmp_snprintf", "gmp_asprintf", "gmp_vsnprintf", "gmp_fprintf", "gmp_sscanf", "gmp_fscanf", "scan:eof", "flag0_with_minus", "flag0_with_precision"}, fixed_case};
+  check, setup, {"Z:compared_with_libc", "Z:big_value_model", "Z:signed_oxX_model", "Z:empty_precision", "%Q", "%N", "%M", "%F", "gmp_snprintf", "gmp_asprintf", "gmp_vsnprintf", "gmp_fprintf", "gmp_sscanf", "gmp_fscanf", "scan:eof", "flag0_with_minus", "flag0_with_precision"}, fixed_case, sweep_count, sweep_item,
+  "the full cross product of the 32 flag subsets of {-,+,space,#,0} x width {none,1,5,20,* = 9,* = -9} x precision {none,.0,.3,.25,.* = 4,.* = -2,'.' alone} x conversion {d,i,o,x,X} x 12 long values (0,+-1,+-7,+-123,65535,LONG_MAX,LONG_MIN,1000000007,-99999) through gmp_snprintf %Z: compared with libc where C gives the conversion a meaning, with the libc-validated layout model otherwise (80,640 format/value pairs)"};
 }
